@@ -341,6 +341,48 @@ pub fn gen(rng: &mut Rng, n: usize, out: &mut Vec<String>) {
     let mut produced = 0;
     while produced < n {
         let (mut w, acct, specs, group) = build_world(rng);
+        // a quarter of the worlds: one bank's e-mode settings are cloned onto another through the REAL lending_pool_clone_emode
+        // (what the engine then makes of the destination's entries is compared with the exact evaluation like everything else)
+        if specs.len() >= 2 && rng.chance(1, 4) {
+            use anchor_lang::{InstructionData, ToAccountMetas};
+            let admin = w.group(&group).admin;
+            let from = specs[rng.below(specs.len() as u64) as usize].key;
+            let to = specs[rng.below(specs.len() as u64) as usize].key;
+            if from != to {
+                let ixn = solana_program::instruction::Instruction {
+                    program_id: marginfi::ID,
+                    accounts: marginfi::accounts::LendingPoolCloneEmode { group, signer: admin, copy_from_bank: from, copy_to_bank: to }.to_account_metas(None),
+                    data: marginfi::instruction::LendingPoolCloneEmode {}.data(),
+                };
+                let r = w.exec(&ixn);
+                if std::env::var_os("MFI_DBG").is_some() { eprintln!("clone_emode -> {:?}", r.as_ref().map_err(|e| e.to_string())); }
+                // directed portfolio on the cloned settings: collateral in a bank that carries the tag of one of the copied
+                // entries, debt ONLY in the destination bank — the one portfolio whose value depends on the destination's entries
+                let dst = w.bank(&to);
+                if let (Ok(()), Some(e)) = (&r, dst.emode.emode_config.entries.iter().find(|e| e.collateral_bank_emode_tag != 0).cloned()) {
+                    if let Some(coll) = specs.iter().map(|s| s.key).find(|k| *k != to) {
+                        let mut cb = w.bank(&coll);
+                        cb.emode.emode_tag = e.collateral_bank_emode_tag;
+                        w.set_bank(&coll, &cb);
+                        let mut a = w.marginfi_account(&acct);
+                        for b in a.lending_account.balances.iter_mut() { *b = bytemuck::Zeroable::zeroed(); }
+                        let mut keys = [coll, to];
+                        keys.sort_by(|x, y| y.cmp(x));
+                        for (slot, k) in keys.iter().enumerate() {
+                            let bal = &mut a.lending_account.balances[slot];
+                            bal.active = 1;
+                            bal.bank_pk = *k;
+                            if *k == coll { bal.asset_shares = I80F48::from_bits(gen_shares(rng).max(ONE)).into(); } else { bal.liability_shares = I80F48::from_bits(gen_shares(rng).max(ONE)).into(); }
+                        }
+                        w.set_marginfi_account(&acct, &a);
+                        let line = describe(&w, &acct, &specs);
+                        let o = pulse_line(&w, &acct, &specs);
+                        out.push(format!("risk.pulse {} => {}", line, o));
+                        produced += 1;
+                    }
+                }
+            }
+        }
         for _ in 0..4 {
             // fresh positions on the same banks
             let mut a = w.marginfi_account(&acct);
